@@ -111,3 +111,55 @@ def replay_path(factory, step, project, path, states=None):
     for st in path:
         step(obj, st["op"], st["args"], st.get("exp"), None, None)
     return project(obj)
+
+
+def walks(graph: Graph, root_key, factory, step, project, n, max_len, seed, p_loop=0.4):
+    """Random behaviours of the model replayed on ONE live object each (no cloning between steps).
+
+    cover() reaches every state by a shortest path and tests each edge on a clone, so the effect of an
+    observer (a self-loop of the model: sampling, reading) is discarded before the next mutator runs.  State
+    the implementation hides from the projection (caches filled by a read, a remembered last batch) therefore
+    only shows on longer histories that interleave observers and mutators: walks() draws such histories from
+    the same state graph - at every state a self-loop with probability p_loop, otherwise a state-changing
+    edge - and compares the projection with the model after every step.
+    Returns dict(walks, steps, violations=[...]) with the same violation records as cover().
+    """
+    import random
+
+    rnd = random.Random(seed)
+    violations = []
+    steps = 0
+    for _ in range(n):
+        try:
+            obj = factory()
+        except Exception:  # cover() reports construction problems
+            break
+        k = root_key
+        path = []
+        for _ in range(max_len):
+            es = graph.out.get(k, ())
+            if not es:
+                break
+            loops = [e for e in es if e[3] == k]
+            moves = [e for e in es if e[3] != k]
+            pool = loops if (loops and (not moves or rnd.random() < p_loop)) else moves
+            op, args, exp, k2 = pool[rnd.randrange(len(pool))]
+            path = path + [{"op": op, "args": args, "exp": exp}]
+            try:
+                step(obj, op, args, exp, graph.state[k], graph.state[k2])
+                got = project(obj)
+                if canon(got) != k2:
+                    raise Mismatch("state after step differs from model", got=got, want=graph.state[k2])
+            except Mismatch as m:
+                violations.append({"what": m.what + f" (history of {len(path)} calls on one object)", "code": m.code, "detail": m.detail, "path": path})
+                break
+            except Exception as ex:
+                import traceback
+
+                tb = traceback.extract_tb(ex.__traceback__)
+                where = f"{tb[-1].filename.split('/')[-1]}:{tb[-1].name}" if tb else "?"
+                violations.append({"what": f"exception {type(ex).__name__} in {where}: {str(ex)[:120]} (history of {len(path)} calls on one object)", "code": f"exception:{type(ex).__name__}:{where}", "detail": {}, "path": path})
+                break
+            steps += 1
+            k = k2
+    return {"walks": n, "steps": steps, "violations": violations}
